@@ -30,7 +30,7 @@ def variant_table():
 
 def seeded_table():
     d = V / 'seeded'
-    rows = ['| seeded change | property | needs, to manifest | reported by |', '|---|---|---|---|']
+    rows = ['| id | change | needs, to manifest | reported by (own property in bold) |', '|---|---|---|---|']
     n = 0
     for m in sorted(d.glob('*/meta.json')):
         meta = json.loads(m.read_text())
@@ -39,8 +39,11 @@ def seeded_table():
         rep = meta.get('checks_reporting', {})
         reps = '; '.join(f"{k}: {(v['reports'][0].split(':')[0] if v['reports'] else 'exit ' + str(v['exit']))}"
                          for k, v in sorted(rep.items())) or '**not reported**'
-        need = (meta.get('summary') or '').replace('|', '/')[:160]
-        rows.append(f"| `{m.parent.name}` | {own} | {need} | {reps} |")
+        chg = (meta.get('summary') or '').replace('|', '/')
+        need = (meta.get('needs_short') or '').replace('|', '/')
+        own_hit = '**' + own + '**' if own in rep and rep[own]['exit'] == 1 else own + ' (missed)'
+        others = ', '.join(k for k in sorted(rep) if k != own)
+        rows.append(f"| `{m.parent.name}` | {chg} | {need} | {own_hit}" + (f'; also {others}' if others else '') + ' |')
     return '\n'.join(rows), n
 
 
@@ -50,5 +53,19 @@ if __name__ == '__main__':
     import re
     vt = variant_table()
     s = re.sub(r'<!-- VT -->.*?<!-- /VT -->|@@VARIANT_TABLE@@', '<!-- VT -->\n' + vt + '\n<!-- /VT -->', s, flags=re.S)
+    st, n = seeded_table()
+    eq = sorted((V / 'seeded_equiv').glob('*/meta.json'))
+    txt = (f'{n} changes were written by fresh sub-agents that saw only the text of one property and a scratch worktree '
+           '(nothing from /verif). Each was confirmed here with `tools/seed_verify.py` in a scratch worktree of the '
+           'current HEAD: the demonstration exits 0 on the unchanged tree, the change applies, the unedited suite still '
+           'passes (76 tests), the demonstration exits 1 with the change; then every quick check was run against the '
+           'changed tree (`VERIF_REPO`). Each is kept under `/verif/seeded/<id>/` (patch.diff, demo.py, notes.md, '
+           'meta.json) and replayed by the self-validation of its property on every thorough run.\n\n' + st + '\n\n'
+           f'{len(eq)} behaviour-preserving refactorings (helper extraction, idiom swaps, re-binding instead of in-place, '
+           'hoisting, conditional expressions; suite passes and a digest of public behaviour is byte-identical before / '
+           'after) were written the same way and confirmed with `tools/refactor_verify.py`; every check must stay '
+           'silent on each of them (`/verif/seeded_equiv/<id>/`, replayed against every property by the '
+           'self-validation).')
+    s = re.sub(r'<!-- SD -->.*?<!-- /SD -->|@@SEEDED@@', lambda m_: '<!-- SD -->\n' + txt + '\n<!-- /SD -->', s, flags=re.S)
     p.write_text(s)
     print(vt)
